@@ -25,7 +25,10 @@ EXPLANATION = (
     "is a comparison-only decision chain over (state enumerator x 8-bit octet): "
     "its complete decision table is derived from the statement CFG by exact "
     "finite-domain interpretation of the branch conditions (every state, every "
-    "octet class; conditions outside that vocabulary are followed both ways), "
+    "octet class; conditions outside that vocabulary are followed both ways; "
+    "a test of the pointer sercomm_alloc_msgb() just returned is decided for a successful allocation - "
+    "allocation failure is outside the property's histories; a default arm of the state switch is "
+    "entered only for values outside the enumeration, which the walk over the enumerators never produces), "
     "with forward substitution of locals.  Calls to functions of sercomm.c that did "
     "not exist at the pinned commit (helpers split out of a step) are followed: the "
     "helper's statements are walked on its own CFG as part of the caller's path with "
@@ -61,6 +64,10 @@ EXPLANATION = (
     "only after msgb_tailroom reported room); only store addresses, reported room and the resulting data / tail / len "
     "are observed, not how a helper is written.  A statement about all paths of "
     "one step holds for every octet stream and every queueing history.")
+ALLOC_ASSUMPTION = (
+    "sercomm_alloc_msgb() returns a buffer (non-NULL) in the receive step: the property quantifies over histories in which "
+    "buffer allocation succeeds, so a branch of sercomm_drv_rx_char() taken only when the pointer it just returned is NULL "
+    "is an environment failure path and is not walked (the tests decided that way are listed in the C06.R1 evidence)")
 ASSUMPTIONS = [
     "payload equality and FIFO order over all message sequences follow from the per-step tables by induction over the stream (argued in DESIGN.md, not machine-checked)",
     "_talloc_zero(ctx, n, name) hands out a zero-filled block of n octets (NULL is not followed); talloc_free / msgb_free release it; "
@@ -69,6 +76,7 @@ ASSUMPTIONS = [
     "llist primitives __llist_add/__llist_del (linuxlist.h) are correct; container_of is type-checked by clang",
     "sercomm_lock/unlock make sendmsg and pull atomic with respect to each other; the receiver runs in one context only",
     "tx.state / rx.state are zero-initialised statics (initial state = enumerator 0)",
+    ALLOC_ASSUMPTION,
     "POSIX write(fd, buf, n) sends buf[0..n-1] in index order; a pulled octet that becomes an argument of any other call "
     "(uart_putchar_nb, ...) is taken as forwarded - what that callee does with it is not followed",
     "non-local objects read in the branch conditions of a pull caller keep their value between two reads unless the caller "
@@ -87,6 +95,7 @@ BUILDS = (
 )
 
 RX_FN = "sercomm_drv_rx_char"
+RX_ALLOC_FN = "sercomm_alloc_msgb"
 TX_FN = "sercomm_drv_pull"
 RXS = "sercomm.rx.state"
 RXM = "sercomm.rx.msg"
@@ -234,6 +243,8 @@ class Step:
         self._pure = {}
         self._ceff = {}
         self.cond_calls = False     # record calls made inside branch conditions as call events
+        self.nonnull_calls = ()     # callees whose returned pointer is taken as non-NULL (allocation succeeds)
+        self.alloc_decided = set()  # texts of the tests that were decided by that assumption
         self._eff = {}
         self.params = [p.get("id") for p in tu.fparams(self.f)]
         self.pnames = [p.get("name") for p in tu.fparams(self.f)]
@@ -533,13 +544,30 @@ class Step:
                     self.relational = True
                 va, vb = self.val(a, st, v), self.val(b, st, v)
                 if va is None or vb is None:
+                    if op in ("==", "!=") and 0 in (va, vb):
+                        # p == NULL / p != NULL: the truth recorded for p itself
+                        r = self.assumed(st, b if va == 0 else a)
+                        if r is not None:
+                            return (not r) if op == "==" else r
                     return st.assume.get(ctext(e))
                 return {"==": va == vb, "!=": va != vb, "<": va < vb, ">": va > vb,
                         "<=": va <= vb, ">=": va >= vb}[op]
         x = self.val(e, st, v)
         if x is None:
-            return st.assume.get(ctext(e))
+            return self.assumed(st, e)
         return bool(x)
+
+    def assumed(self, st, e):
+        """Truth of an atom outside the (state, octet) vocabulary as recorded on this path (None: unknown).
+        A pointer that holds what an allocator of `nonnull_calls` returned reads as non-NULL: the property
+        quantifies over histories in which buffer allocation succeeds, so the branch taken only on a NULL
+        result is an environment failure path, not a row of the step table (the tests decided that way are
+        collected in alloc_decided and reported in the evidence)."""
+        txt = ctext(e)
+        r = st.assume.get(txt)
+        if r is not None and st.assume.get(("allocok", txt)):
+            self.alloc_decided.add(txt)
+        return r
 
     def residual(self, e, st, v):
         """(value, expr, pol): value if the condition is decided, else the
@@ -630,7 +658,7 @@ class Step:
         return r
 
     def invalidate(self, st, lv_text):
-        for k in [k for k in st.assume if lv_text in k]:
+        for k in [k for k in st.assume if lv_text in (k[1] if isinstance(k, tuple) else k)]:
             del st.assume[k]
 
     def apply(self, node, st):
@@ -736,17 +764,24 @@ class Step:
         the stored value (a null constant, or the pointer a followed helper
         returned under a recorded path fact) and the store cannot narrow it."""
         qt = (lhs.get("type", {}).get("qualType") or "") if lhs is not None else ""
-        truth = None
+        truth, allocok = None, False
         if t == ("const", 0):
             truth = False
         elif qt.endswith("*"):
             r = strip(rhs, casts=True)
             if kind(r) == "CallExpr":
                 truth = snap.env.get(("rett", id(r)))
+                if truth is None and t[0] == "call" and t[1] in self.nonnull_calls:
+                    truth, allocok = True, True         # allocation succeeds (see assumed())
             elif ref_id(r) is not None and ctext(r) in snap.assume:
                 truth = snap.assume[ctext(r)]
+                allocok = bool(snap.assume.get(("allocok", ctext(r))))
+            elif t[0] == "call" and t[1] in self.nonnull_calls and ref_id(r) is not None:
+                truth, allocok = True, True             # a local that holds the allocator's result
         if truth is not None and ltxt:
             st.assume[ltxt] = truth
+            if allocok:
+                st.assume[("allocok", ltxt)] = True
 
     def _advance(self, st, d, post, node, line):
         if st.pos is not None:
@@ -1053,11 +1088,15 @@ class Rx:
             raise AnalysisError("%s(): the received octet is no longer an 8-bit unsigned value" % RX_FN)
         self.step = Step(tu, RX_FN, ps[0]["name"], RXS, subject_id=ps[0].get("id"))
         self.step.cond_calls = True
+        self.step.nonnull_calls = (RX_ALLOC_FN,)
         self.g = self.step.g
         self.own = own_functions(tu)
         self.states = enum_states(tu)
         self.names = {v: k for k, v in self.states.items()}
         self.tab = self.step.table(sorted(self.names))
+        # a path whose tailroom literals contradict each other or msgb_tailroom() >= 0 (C06.R7) is never taken:
+        # the true side of `msgb_tailroom(m) < 0` is no overflow path, it does not exist
+        self.tab = {k: [p for p in paths if self.feasible(p)] for k, paths in self.tab.items()}
         self.rows = {}          # (state, octet) -> sig of the path(s) with room
         self.variants = {}      # (state, octet) -> [(constraints on the result of an own function called in the step, sig)]
         self.over = []          # overflow paths
@@ -1108,6 +1147,23 @@ class Rx:
 
     def variants_of(self, s, v):
         return self.variants.get((s, v)) or [(frozenset(), self.rows[(s, v)])]
+
+    @staticmethod
+    def feasible(p):
+        lo, hi = 0, None
+        for e in p.events:
+            if e[0] == "fork":
+                b = room_bounds(e[3]).get(RXM)
+                if b is not None:
+                    lo = max(lo, b[0])
+                    hi = b[1] if hi is None or b[1] is None else min(hi, b[1])
+            elif e[0] == "store" and e[1] == RXM:
+                lo, hi = 0, None            # another buffer
+            elif e[0] == "call" and e[1] == "msgb_put":
+                lo, hi = 0, None            # the room changed
+            if hi is not None and hi < lo:
+                return False
+        return True
 
     @staticmethod
     def room(p):
@@ -1451,6 +1507,16 @@ def r1_bounded_store(L, tu, tag, size, rx):
     L.require(R, F, RX_FN, "octet stores through the msgb_put result stay inside the appended area", [], sorted(set(badidx)))
     L.require(R, F, RX_FN, "receive buffer pointer is not replaced between the tailroom test and msgb_put", [], replaced)
     L.require(R, F, RX_FN, "writes into the receive buffer other than through a fresh msgb_put result", [], sorted(set(foreign)))
+    if rx.step.alloc_decided:
+        # the step tests the pointer the allocator returned: decided under the allocation-success assumption
+        L.assume(ALLOC_ASSUMPTION)
+        L.ob(R, F, RX_FN, "tests of the pointer %s() returned are decided for a successful allocation (the property quantifies "
+             "over histories in which buffer allocation succeeds): the branch taken only on a NULL result is an environment "
+             "failure path, not a row of the step table" % RX_ALLOC_FN, "assumption recorded",
+             "assumed non-NULL after the allocation: %s" % ", ".join(sorted(rx.step.alloc_decided)), True)
+        L.extra.setdefault("environment_failure_paths", {})["%s() returned NULL (%s build)" % (RX_ALLOC_FN, tag)] = {
+            "not walked": "branches of %s() taken only when the pointer just returned by %s() is NULL" % (RX_FN, RX_ALLOC_FN),
+            "tests decided by the assumption": sorted(rx.step.alloc_decided)}
     # overflow path
     tests = [n for n in g.nodes if n.kind == "cond" and n.cond is not None and
              any(_TR + RXM + ")" in t for (t, _) in cliterals(tu, n.cond, True))]
